@@ -105,7 +105,7 @@ func cmdCheck(args []string) int {
 		}
 		ex, crashed := p.verifyFuncSafe(n)
 		if crashed != "" {
-			if contractMentionsProp(c, id) || len(c.Props) == 0 {
+			if participates(c, id) {
 				crashes = append(crashes, n+": "+crashed)
 			}
 			continue
@@ -119,7 +119,7 @@ func cmdCheck(args []string) int {
 		}
 		if len(ex.unsupported) > 0 {
 			fr.Unsupported = ex.unsupported
-			if fr.Obligations > 0 {
+			if fr.Obligations > 0 || participates(c, id) {
 				outside = append(outside, n+": "+strings.Join(ex.unsupported, "; "))
 				outsideFns = append(outsideFns, n)
 			}
@@ -202,6 +202,14 @@ func cmdCheck(args []string) int {
 		path := filepath.Join(replayDir, "vcgen-failed-"+sanitize(n)+".json")
 		writeJSON(path, map[string]interface{}{"property": id, "obligation": n + "/vc-generation", "reason": "obligation generation failed for this function (it verified on the unchanged tree)", "details": cmsg})
 		lines = append(lines, fmt.Sprintf("VIOLATION property=%s replay=%s obligation=%s/vc-generation no-failing-input-found", id, path, n))
+	}
+	for i, se := range p.setupErrors {
+		// package-level state could not be modelled: global-immutability and every proof using globals is off
+		violations++
+		os.MkdirAll(replayDir, 0o755)
+		path := filepath.Join(replayDir, fmt.Sprintf("package-init-%d.json", i))
+		writeJSON(path, map[string]interface{}{"property": id, "obligation": "init/within-verified-subset", "reason": "package-level variables are initialised with constructs outside the verified subset (on the unchanged tree all of them are plain literals)", "details": se})
+		lines = append(lines, fmt.Sprintf("VIOLATION property=%s replay=%s obligation=init/within-verified-subset no-failing-input-found", id, path))
 	}
 	for _, v := range vac {
 		violations++
@@ -404,4 +412,27 @@ func (p *Prog) verifyFuncSafe(n string) (ex *Exec, crashed string) {
 		}
 	}()
 	return p.verifyFunc(n), ""
+}
+
+// participates: does a function under contract carry (possibly trivially discharged) obligations of a property?
+func participates(c *Contract, id string) bool {
+	if contractMentionsProp(c, id) {
+		return true
+	}
+	switch id {
+	case "C05":
+		return true // safety and termination obligations exist for every function
+	case "C06", "C12", "C13":
+		return c.HasAssigns // frame obligations
+	}
+	for _, ls := range c.Loops {
+		for _, cl := range ls.Invariants {
+			for _, p := range cl.Props {
+				if p == id {
+					return true
+				}
+			}
+		}
+	}
+	return false
 }
